@@ -19,7 +19,8 @@ RULE = ("Hypothesis generates a build description (1-7 commands over the shell t
         "create source, delete or overwrite an output, edit the description (change a command's arguments, add or "
         "remove an input, remove a command, add a command -- also one that now produces a former source), build a "
         "target or a single node, serial or -j4}, every build in a new `bsx` process (BuildSystemFrontend, as "
-        "`llbuild buildsystem build`) on the same build.db; every edit is stamped from the logical clock shared "
+        "`llbuild buildsystem build`) on the same build.db -- or, for a third of the histories, consecutive builds "
+        "on ONE reused BuildSystemFrontend until the description changes; every edit is stamped from the logical clock shared "
         "with vtool, so it is observable. Oracle: after each build that exits 0, every output reachable from what "
         "was built holds exactly the bytes the Python description evaluator computes from the current description "
         "and the current contents of files no command produces; a build may fail only when a needed command has a "
@@ -79,7 +80,9 @@ def case(draw):
         elif k == "build":
             ops.append(draw(build_op(cur)))
     ops.append(draw(build_op(cur)))
-    return {"desc": desc, "ops": ops}
+    # a third of the histories keep ONE BuildSystemFrontend alive across consecutive builds (the system
+    # and engine are reset and reused); a description edit ends the session, the next build starts a new one
+    return {"desc": desc, "ops": ops, "session": draw(st.integers(0, 2)) == 0}
 
 
 @st.composite
@@ -197,6 +200,12 @@ def strategy(tier):
 def run_history(case, ctx, on_build):
     """Shared driver: applies the ops and calls on_build(ws, desc, op, result, nbuild) after every build."""
     ws = bm.Workspace(ctx)
+    sess = [None, None]
+
+    def end_session():
+        if sess[0] is not None:
+            sess[0].close()
+        sess[0] = None
     try:
         desc = copy.deepcopy(case["desc"])
         for s, text in desc["sources"].items():
@@ -212,18 +221,33 @@ def run_history(case, ctx, on_build):
             elif o == "desc":
                 apply_desc_edit(desc, op["edit"])
                 bm.write_description(ws, desc)
+                end_session()
             elif o == "fault":
                 ws.set_fault(op["cmd"], op["fault"])
             elif o == "build":
                 nb += 1
-                r = ws.build(target=op.get("target"), node=op.get("node"), jobs=op.get("jobs"),
-                             db=case.get("db", True))
+                if case.get("session"):
+                    if sess[0] is not None and (sess[1] != op.get("jobs") or sess[0].dead):
+                        end_session()
+                    if sess[0] is None:
+                        sess[0] = bm.Session(ws, jobs=op.get("jobs"), db=case.get("db", True))
+                        sess[1] = op.get("jobs")
+                    else:
+                        reused[0] += 1
+                    r = sess[0].build(target=op.get("target"), node=op.get("node"))
+                else:
+                    r = ws.build(target=op.get("target"), node=op.get("node"), jobs=op.get("jobs"),
+                                 db=case.get("db", True))
                 v = on_build(ws, desc, op, r, nb)
                 if v:
                     return v
         return None
     finally:
+        end_session()
         ws.cleanup()
+
+
+reused = [0]
 
 
 def roots_of(desc, op):
@@ -266,8 +290,11 @@ def run_case(case, ctx, verbose=False):
             info["reuse"] = True
         return None
 
+    reused[0] = 0
     v = run_history(case, ctx, on_build)
     classes = []
+    if reused[0]:
+        classes.append("frontend-reused")
     if info["desc_edit"]:
         classes.append("desc-edit")
     if info["jobs"]:
